@@ -93,14 +93,26 @@ namespace bloch::compiler {
             int depth = 0;
             size_t j = i + 1;
             while (j < m_tokens.size()) {
-                if (m_tokens[j].type == TokenType::Less)
+                TokenType tt = m_tokens[j].type;
+                if (tt == TokenType::Less)
                     depth++;
-                else if (m_tokens[j].type == TokenType::Greater) {
+                else if (tt == TokenType::Greater) {
                     depth--;
                     if (depth == 0) {
                         i = j;
                         break;
                     }
+                } else if (tt != TokenType::Identifier && tt != TokenType::Comma &&
+                           tt != TokenType::Dot && tt != TokenType::LBracket &&
+                           tt != TokenType::RBracket && tt != TokenType::Extends &&
+                           tt != TokenType::Int && tt != TokenType::Long &&
+                           tt != TokenType::Float && tt != TokenType::Char &&
+                           tt != TokenType::String && tt != TokenType::Bit &&
+                           tt != TokenType::Boolean && tt != TokenType::Qubit) {
+                    // Not a token that can occur inside a type-argument list: the '<' was a
+                    // comparison. Without this stop the scan ran on to any later '>' in the
+                    // file and turned '(x < 2)' into the start of a cast / declaration.
+                    return;
                 }
                 j++;
             }
